@@ -285,6 +285,126 @@ def run(rep: Report, prog: Program, tier: str) -> None:
     rep.analysed["event_fields"] = sorted(f"{c}.{a}" for c, a in event_fields)
     rep.analysed["owned_handles"] = sorted(f"{c}.{a}" for c, a in handles)
 
+    # ---------------- C19-REACH: close() evaluated on object graphs - whatever the bundling flags say, every transceiver, the SCTP transport and every
+    # DTLS / ICE transport reachable from them is stopped
+    rep.rule("C19-REACH", "close() stops every transceiver, the SCTP transport and every DTLS / ICE transport reachable from them, for every bundling layout", min_instances=6)
+    from types import SimpleNamespace as _NS
+
+    from engine.index import Unknown as _Unk
+    from engine.peval import Evaluator as _Ev, Raised as _Rs
+
+    from .objhook import make_hook as _mkh
+    stopped_objs: List[Any] = []
+
+    def _extra(call: ast.Call, ev: Any) -> Any:
+        f = call.func
+        name = unparse(f)
+        if isinstance(f, ast.Attribute) and f.attr == "stop" and not call.args:
+            stopped_objs.append(ev.ev(f.value))
+            return None
+        if name.startswith("self.__update") or name in ("self.__setSignalingState", "self.remove_all_listeners", "self.emit", "self.__log_debug"):
+            return None
+        if name == "asyncio.Future":
+            return _NS(result=None)
+        if name.endswith(".set_result"):
+            return None
+        return NotImplemented
+    oh6 = _mkh(prog, _extra)
+
+    def graph(layout):
+        """layout: list of (kind, bundled flag, transport key); returns (self object, owners, transports)"""
+        dtls: Dict[str, Any] = {}
+        owners = []
+        me = _NS(__cls__=close.cls)
+        trs = []
+        sctp = None
+        for kind, bundled, key in layout:
+            if key not in dtls:
+                dtls[key] = _NS(name=f"dtls-{key}", state="connected", transport=_NS(name=f"ice-{key}", state="completed"))
+            if kind == "transceiver":
+                t = _NS(name=f"transceiver-{len(trs)}", _bundled=bundled, stopped=False, _transport=dtls[key], receiver=_NS(transport=dtls[key]), sender=_NS(transport=dtls[key]))
+                trs.append(t)
+                owners.append(t)
+            else:
+                sctp = _NS(name="sctp", _bundled=bundled, transport=dtls[key])
+                owners.append(sctp)
+        for k, v in {"__isClosed": None, "__transceivers": trs, "__sctp": sctp, "__iceTransports": {d.transport for d in dtls.values()} if False else [d.transport for d in dtls.values()],
+                     "__dtlsTransports": list(dtls.values())}.items():
+            setattr(me, k, v)
+        return me, owners, list(dtls.values())
+    T_, S_ = "transceiver", "sctp"
+    layouts = [
+        ("two transceivers on their own transports", [(T_, False, "a"), (T_, False, "b")]),
+        ("two transceivers and SCTP on their own transports", [(T_, False, "a"), (T_, False, "b"), (S_, False, "c")]),
+        ("audio is the bundle primary; video and SCTP bundled onto it", [(T_, False, "a"), (T_, True, "a"), (S_, True, "a")]),
+        ("max-bundle, data channel first: every user of the single transport is flagged bundled", [(T_, True, "a"), (S_, True, "a")]),
+        ("SCTP only", [(S_, False, "a")]),
+        ("bundled transceiver whose primary was removed, SCTP elsewhere", [(T_, True, "a"), (S_, False, "b")]),
+    ]
+    for label, layout in layouts:
+        me, owners, transports = graph(layout)
+        del stopped_objs[:]
+        try:
+            oh6.run_method(close, me, [], {})
+        except _Rs as ex:
+            rep.fail(mk_finding(prog, PROP, "C19-REACH", close, getattr(ex, "node", None), f"[{label}] close() raises {ex.name}", construct=f"close raises {ex.name}"))
+            continue
+        except _Unk as ex:
+            raise AnalysisError(f"C19-REACH cannot evaluate close() for [{label}]: {ex}")
+        need = owners + transports + [d.transport for d in transports]
+        left = [o.name for o in need if not any(o is x for x in stopped_objs)]
+        if left:
+            rep.fail(mk_finding(prog, PROP, "C19-REACH", close, close.node, f"[{label}] close() returns without having stopped {left}: their tasks (DTLS receive loop, ICE monitor, "
+                                "consent checks) keep running on a connection that reports `closed`", construct="close leaves " + left[0].split("-")[0] + " running"))
+        else:
+            rep.ok("C19-REACH", label, sample=f"{len(need)} objects stopped")
+
+    # ---------------- C19-SSLERR: close() awaits RTCDtlsTransport.stop(); an OpenSSL error escaping from it (shutdown during the handshake raises a plain
+    # SSL.Error, not WantReadError) leaves close() unfinished: the ICE transport is never stopped and the close future never resolves
+    rep.rule("C19-SSLERR", "pyOpenSSL calls on the stop() path of the DTLS transport are guarded by a handler for SSL.Error (the whole family)", min_instances=2)
+    dstop = prog.func("rtcdtlstransport.RTCDtlsTransport.stop")
+    SSL_RAISING = {"shutdown", "do_handshake", "recv", "send", "bio_read", "bio_write", "read", "write"}
+    todo = [dstop]
+    seen_f = set()
+    n_ssl = 0
+    while todo:
+        fi = todo.pop()
+        if fi.qualname in seen_f:
+            continue
+        seen_f.add(fi.qualname)
+        pm: Dict[int, ast.AST] = {}
+        for p_ in ast.walk(fi.node):
+            for ch in ast.iter_child_nodes(p_):
+                pm[id(ch)] = p_
+        for n in walk_no_nested(fi.node):
+            if not isinstance(n, ast.Call) or not isinstance(n.func, ast.Attribute):
+                continue
+            if unparse(n.func.value) == "self._ssl" and n.func.attr in SSL_RAISING:
+                n_ssl += 1
+                cur: Any = n
+                guarded = False
+                while id(cur) in pm:
+                    par = pm[id(cur)]
+                    if isinstance(par, ast.Try) and any(cur is b for b in par.body):
+                        for hd in par.handlers:
+                            names = [unparse(x) for x in (hd.type.elts if isinstance(hd.type, ast.Tuple) else [hd.type])] if hd.type is not None else ["*"]
+                            if any(x in ("*", "SSL.Error", "Error", "Exception", "BaseException") for x in names):
+                                guarded = True
+                    cur = par
+                if guarded:
+                    rep.ok("C19-SSLERR", f"{fi.qualname}: self._ssl.{n.func.attr}()", sample="inside try/except SSL.Error")
+                else:
+                    rep.fail(mk_finding(prog, PROP, "C19-SSLERR", fi, n, f"`{unparse(n)}` on the stop() path is not inside a handler for SSL.Error: OpenSSL raises a plain SSL.Error for a shutdown "
+                                        "during the handshake; the exception escapes stop(), close() never stops the ICE transport nor resolves its future, a later close() hangs",
+                                        construct=f"unguarded self._ssl.{n.func.attr}() on the stop path"))
+            # follow self.<method>() calls of the same class
+            if isinstance(n.func.value, ast.Name) and n.func.value.id == "self":
+                m = prog.find_method(fi.cls, n.func.attr)
+                if m is not None:
+                    todo.append(m)
+    if n_ssl < 2:
+        raise AnalysisError(f"C19-SSLERR: only {n_ssl} pyOpenSSL calls found on the stop() path of the DTLS transport")
+
     # ---------------- C19-STATES: once closed, the aggregated states are `closed` whatever the transports report, and nothing is emitted again
     rep.rule("C19-STATES", "after close() the ICE / connection state computations latch on `closed` and stay silent", min_instances=40)
     import itertools as _it
